@@ -192,6 +192,53 @@ let select_line l =
       (select_targets g defaults (if m < 0 then None else Some (nat_of_int m)) adopt names)
   with Parse m -> "parse-error " ^ m | Failure m -> "parse-error " ^ m
 
+(* dbopen: <fixed> <file-hex> P n (name-hex build)* *)
+let dbopen_line l =
+  try
+    let ts = toks_of_line l in
+    let fixed = next_int ts = 1 in
+    let file = bytes_of_hex (next ts) in
+    expect ts "P";
+    let n = next_int ts in
+    let prods = times n (fun () -> let nm = bytes_of_hex (next ts) in let b = next_int ts in (nm, nat_of_int b)) in
+    let producer name = (try Some (List.assoc name prods) with Not_found -> None) in
+    expect ts "W";
+    let nw = next_int ts in
+    let writes = times nw (fun () ->
+      expect ts "O"; let no = next_int ts in let outs = times no (fun () -> bytes_of_hex (next ts)) in
+      expect ts "D"; let nd = next_int ts in let deps = times nd (fun () -> bytes_of_hex (next ts)) in
+      expect ts "H"; let h = n_of_hexnum (next ts) in (outs, deps, h)) in
+    match db_open fixed producer file with
+    | OpenErr m -> "err " ^ hex_of_bytes m
+    | OpenPanic s -> "panic " ^ string_of_int (int_of_n s)
+    | OpenOk (st, f) ->
+      let bs = List.sort_uniq compare (List.map (fun (b, _) -> int_of_nat b) st.ld_builds) in
+      let loaded = String.concat ";" (List.map (fun b ->
+        match loaded_for st (nat_of_int b) with
+        | Some (deps, h) -> Printf.sprintf "%d:%s:%s" b (hexnum_of_n h) (String.concat "," (List.map hex_of_bytes deps))
+        | None -> "") bs) in
+      let rec go tbl file ws =
+        match ws with
+        | [] -> "final=" ^ hex (string_of_bytes file)
+        | (o, dd, h) :: rest ->
+          (match write_build tbl o dd h with
+           | Ok (b, tbl') -> go tbl' (file @ b) rest
+           | Panic s -> "wpanic " ^ string_of_int (int_of_n s)
+           | _ -> "wbroken") in
+      "ok after_open=" ^ hex_of_bytes f ^ " loaded=" ^ loaded ^ " " ^ go st.ld_tbl f writes
+  with Parse m -> "parse-error " ^ m | Failure m -> "parse-error " ^ m
+
+(* dbwrite: T n names  O n names  D n names  H hexhash *)
+let dbwrite_line l =
+  try
+    let ts = toks_of_line l in
+    expect ts "T"; let nt = next_int ts in let tbl = times nt (fun () -> bytes_of_hex (next ts)) in
+    expect ts "O"; let no = next_int ts in let outs = times no (fun () -> bytes_of_hex (next ts)) in
+    expect ts "D"; let nd = next_int ts in let deps = times nd (fun () -> bytes_of_hex (next ts)) in
+    expect ts "H"; let h = n_of_hexnum (next ts) in
+    show_outcome (fun (b, tbl') -> hex_of_bytes b ^ " " ^ string_of_int (List.length tbl')) (write_build tbl outs deps h)
+  with Parse m -> "parse-error " ^ m | Failure m -> "parse-error " ^ m
+
 let suites : (string * (string -> string)) list =
   [ ("canon_impl", canon_impl_line); ("canon", canon_line); ("canon_sem", sem_line);
     ("depfile", depfile_line true); ("depfile_pinned", depfile_line false);
@@ -199,7 +246,8 @@ let suites : (string * (string -> string)) list =
     ("lastline", lastline_line);
     ("taskmsg", taskmsg_line true); ("taskmsg_pinned", taskmsg_line false);
     ("truncate", truncate_line); ("bar", bar_line); ("status", status_line);
-    ("inv", inv_line); ("select", select_line) ]
+    ("inv", inv_line); ("select", select_line);
+    ("dbopen", dbopen_line); ("dbwrite", dbwrite_line) ]
 
 let () =
   let suite = if Array.length Sys.argv > 1 then Sys.argv.(1) else "" in
